@@ -234,3 +234,6 @@ package routine
 //@   props C14
 //@   opt frame = skip
 //@   requires s != nil && s.rc != nil && ctx != nil
+//
+// NewRoutineContainer applies caller-supplied options (opaque interface calls) to the new object.
+//@ assume-note routine.NewRoutineContainer: options only set exitedCbs / retryBo; a new container has no routine, no context and an empty hand-over chain (constructor not verified)
